@@ -302,6 +302,17 @@ fn main() -> Result<()> {
     if env::var_os("VERIF_DUMP_OPT").is_some_and(|mode| mode == "effects") {
         info!("verification run: stopping after the start-up effects");
         println!("VERIF_EFFECTS root_dir={root_dir:?} log_output_dest={log_output_dest:?}");
+        // the run-time configuration the node is about to be built with: the network id and the protocol
+        // strings derived from it (lazily, on first access), incl. the one main() already holds
+        println!(
+            "VERIF_PROTOCOL network_id={:?} held_identify_protocol={:?} identify_protocol={:?} identify_node={:?} identify_client={:?} req_response={:?}",
+            version::get_network_id(),
+            *identify_protocol_str,
+            *version::IDENTIFY_PROTOCOL_STR.read().expect("IDENTIFY_PROTOCOL_STR"),
+            *version::IDENTIFY_NODE_VERSION_STR.read().expect("IDENTIFY_NODE_VERSION_STR"),
+            *version::IDENTIFY_CLIENT_VERSION_STR.read().expect("IDENTIFY_CLIENT_VERSION_STR"),
+            *version::REQ_RESPONSE_VERSION_STR.read().expect("REQ_RESPONSE_VERSION_STR"),
+        );
         return Ok(());
     }
 
